@@ -355,3 +355,10 @@ def run(ctx):
     for m in ("Highest", "Lowest", "First", "Last"):
         ctx.require(f"piece:{m}:tie", f"piece:{m}:n>eligible", f"piece:{m}:n<eligible", f"piece:{m}:disabled-rule", f"piece:{m}:unloaded-rule")
     ctx.require("piece:Threshold:threshold-equals-a-degree", "piece:First:threshold-equals-a-degree")
+
+
+def passive(ctx, fl, probe):
+    """attach this property's always-on monitor to a foreign workload (the repository's test-suite, see vf/pytest_plugin.py)"""
+    mon = ActivationMonitor(ctx, fl)
+    mon.install(probe)
+    return None
